@@ -107,7 +107,10 @@ def run_shard(sh, rec):
         t0 = float(rng.choice([0.0, 0.25, 17.5]))
         cfg = dict(kind=kind, shape=shape, x_range=xr, nu=nu, dtype=c["dtype"], threads=2, forcing=c.get("forcing", False),
                    free_stream=c.get("free_stream", False), width=c.get("width", 2), rho=rho, filter=c.get("filter"),
-                   solver=c.get("solver", "greens_function_convolution"), field_type=c.get("field_type", "scalar"), time=t0)
+                   solver=c.get("solver", "greens_function_convolution"), field_type=c.get("field_type", "scalar"), time=t0,
+                   via_factory=(c["cid"] % 3 == 1))  # every third configuration is built through the documented factory functions
+        if cfg["via_factory"] and kind != "passive":
+            rec.count("simulators_built_via_factory_function")
         label = {k: cfg[k] for k in ("kind", "shape", "x_range", "dtype", "forcing", "free_stream", "width", "filter", "solver", "field_type")}
         try:
             sim = sims.build(cfg)
@@ -138,6 +141,11 @@ def run_shard(sh, rec):
                 rec.count("states_with_velocity_ties")
             f0 = _state(rng, skind, shape, (d,), real_t) if cfg["forcing"] else None
             fs = rng.standard_normal(d)
+            if skind in ("mixed", "ties"):
+                # axis-aligned free streams: one or two components exactly zero (python/numpy zeros), the rest generic
+                for i_ in rng.permutation(d)[: int(rng.integers(1, d))]:
+                    fs[int(i_)] = 0.0
+                rec.count("steps_with_axis_aligned_free_stream")
             prim = sims.primary(sim)
             prim[...] = w0
             sim.velocity_field[...] = u0
